@@ -151,11 +151,7 @@ func c06Sim(r *simcore.Run) {
 		w.defaultBT = s.Draw(2, "default-bt") == 1
 	}
 	// a per-run pool biased to collide
-	poolSize := 3 + s.Draw(6, "pool")
-	pool := make([]string, 0, poolSize)
-	for i := 0; i < poolSize; i++ {
-		pool = append(pool, simcore.Pick(s, vPathPool, "pool-path"))
-	}
+	pool := vDrawPool(s, 3, 6)
 	sources := []string{"s0", "s1", "s2"}
 	ids := []string{"r0", "r1", "r2", "r3"}
 	r.Logf("world default=%v defaultBT=%v pool=%v", w.withDefault, w.defaultBT, pool)
